@@ -28,8 +28,12 @@ func genRedefine(r *rand.Rand) redefCase {
 	nT := 5 + r.Intn(2)
 	nameType := map[string]int{}
 	names := []string{"a", "b", "c", "d"}
+	ifaceOK := false
 	lab := func(allowName bool) Label {
 		l := Label{Type: r.Intn(nT)}
+		if ifaceOK && r.Intn(8) == 0 {
+			l.Type = nConcrete + r.Intn(2)
+		}
 		if allowName && r.Intn(2) == 0 {
 			n := pick(r, names)
 			if t, ok := nameType[n]; ok {
@@ -62,7 +66,8 @@ func genRedefine(r *rand.Rand) redefCase {
 		seen[inputKey(l)] = true
 		s.Inputs = append(s.Inputs, l)
 	}
-	// target
+	// target (and converters) may use interface types; supplied values are concrete
+	ifaceOK = true
 	var t FuncSpec
 	nmSeen := map[string]bool{}
 	tySeen := map[int]bool{}
@@ -85,6 +90,9 @@ func genRedefine(r *rand.Rand) redefCase {
 	t.OutForm = FormPos
 	for i := r.Intn(3); i > 0; i-- {
 		t.Out = append(t.Out, Label{Type: r.Intn(nT)})
+		if r.Intn(10) == 0 {
+			t.Out[len(t.Out)-1].Type = nConcrete + r.Intn(2)
+		}
 	}
 	t.HasErr = r.Intn(2) == 0
 	if t.HasErr && r.Intn(8) == 0 {
@@ -193,6 +201,24 @@ func genRedefine(r *rand.Rand) redefCase {
 			}
 		}
 	}
+	// the sets mirror FilterType: admitting an interface type admits its implementations
+	for _, m := range []map[int]bool{rc.InAllowed, rc.OutAllow} {
+		if m == nil {
+			continue
+		}
+		for _, it := range []int{tI0, tI1} {
+			if r.Intn(4) == 0 {
+				m[it] = true
+			}
+			if m[it] {
+				for cc := 0; cc < nConcrete; cc++ {
+					if implements(cc, it) {
+						m[cc] = true
+					}
+				}
+			}
+		}
+	}
 	rc.FilterK = r.Intn(4)
 	r.Shuffle(len(s.Convs), func(i, j int) { s.Convs[i], s.Convs[j] = s.Convs[j], s.Convs[i] })
 	dedupeTypes(s)
@@ -266,7 +292,7 @@ func init() {
 			"half are random single-input converter sets; supplied values named and type-only; input/output filters = arbitrary type subsets expressed with FilterType/FilterOr/FilterAnd/raw predicates. " +
 			"Oracle: (i) every input of the redefined function passes the filter and is not a supplied (name,type); (ii) calling it with a fresh value per declared input fails only with an error value some body returned, otherwise the original target ran exactly once and Out(i)/Err() are exactly what that execution produced, C01 monitor (with relabelling through the redefined function's own inputs) holds; " +
 			"(iii) output rejected by the output filter => Redefine fails; (iv) every target parameter permitted => Redefine succeeds. non-trivial = Redefine succeeded and the redefined call executed >= 1 converter, or Redefine was (rightly) refused",
-		Assumptions: []string{"concrete types only in labels (a named interface-typed input cannot be represented by Named with a concrete value)", "positional target results so that Out(i) can be compared id by id"},
+		Assumptions: []string{"supplied values are concrete; a value for an interface-typed declared input is supplied type-only (the only form the matching rules accept for interface requirements)", "positional target results so that Out(i) can be compared id by id"},
 		Run:   runC08,
 		Floor: func(tier string, a *Agg) string {
 			if a.Obs["redefined_calls_with_conversion"] < 300 {
